@@ -71,7 +71,7 @@ Section Unify.
     rewrite (emit_opt_ne _ Huv).
     replace (F ++ e :: [emit_edit (u ++ v)]) with ((F ++ [e]) ++ [emit_edit (u ++ v)]) by lapp.
     unfold uc_end_idx. rewrite ptr_at_last. cbn [deref bind].
-    cbn [is_emit emit_edit eop op_eqb X Y].
+    unfold uc_end_emit. cbn [is_emit emit_edit eop op_eqb X Y].
     unfold uc_end_whole, uc_end_drop_hi, uc_end_trim_hi, uc_end_lend, uc_end_rend, uc_bad_merge.
     destruct u as [|a u].
     - replace (len v >=? len ([] ++ v)) with true by (cbn [app]; lia).
